@@ -10,7 +10,8 @@ ASSUMPTIONS = ["DATA-reader part; BDAT accounting and the SIZE parameter are tie
 RULE = ("conv probe: DATA bodies with limits |body|-1..|body|+1, BDAT chunk sequences totalling N-2..N+2 and 3N for N in {5,10}, second transactions within the limit after a completed / abandoned / exactly-N chunked transfer on the same connection (no 552 may appear), declared SIZE in {N-1,N,N+1,2^32-1,2^32,0}, BDAT size arguments 2^32..2^64 and beyond inside a transaction, SMTP and LMTP; dr probe with a size budget: exhaustive transition table for budget 0, 1 and 3; every stream over "
         "{'.',CR,LF,'a'} up to the tier's length x limits {1, |body|-2..|body|+2, far above} x read schedules; random "
         "256-valued streams with random limits. non-trivial = limited reader and stream containing '.', CR or LF")
-THEOREMS = ["C06_bound_data", "C06_oversize_never_complete", "C06_transparent", "data_monitor_accepts_model"]
+THEOREMS = ["C06_bound_data", "C06_oversize_never_complete", "C06_transparent", "data_monitor_accepts_model",
+            "C06_chunk_over_limit", "C06_declared_size_refused"]
 nontrivial = lambda case, ans: (dc.nontrivial_stream(case) and case.split("\t")[1] != "-") if case.startswith('dr') else cc.nontrivial(case, ans)
 signature = lambda case, ans: dc.signature(case, ans) if case.startswith('dr') else cc.signature(case, ans)
 mutate = lambda case, rng: dc.mutate(case, rng) if case.startswith('dr') else []
